@@ -23,6 +23,7 @@ func checkC03(r *Run) {
 	mor.ExemptCase = msgNoCLenExempt
 	mor.ExemptObs = msgBodyLines
 	exploreSpaces(r, msgDrv, msgSpaces(r), mor, nil)
+	c03Big(r, mor)
 }
 
 func init() {
